@@ -192,7 +192,7 @@ def generate(tier, wd, rng, stats):
         add_cov(r)
         traces = r.tagged["REPLAY"]
         stats["states"] += r.distinct
-        stats["transitions"] += r.generated - len(r.tagged.get("INIT", [])) if r.generated else 0
+        stats["transitions"] += sum(t for a, (d, t) in r.coverage.items() if a in ALL_ACTIONS)
         stats["sequences"] += len(traces)
         new = make_cases(traces, "s%d_" % ci, rng)
         cases += new
